@@ -154,6 +154,11 @@ package htlcswitch
 //@        len(drops) == prev(len(drops)) + ite(found.Outgoing != nil || !found.LoadedFromDisk, 1, 0) &&
 //@        len(fails) == prev(len(fails)) + ite(found.Outgoing != nil || !found.LoadedFromDisk, 0, 1)
 //@   loop 3 step !has(cm.pending, circuit.Incoming)
+//@   // the rollback after a failed write removes the circuits THIS call added - never an entry that was pending before (a half-open circuit
+//@   // loaded from disk whose duplicate is in the batch stays in memory, as it stays on disk)
+//@   // (rangeindex is the loop counter before its increment: the element in hand is at rangeindex + 1)
+//@   site call delete as rollback-own-adds-only: assert arg(0) == cm.pending && 0 <= rangeindex + 1 && rangeindex + 1 < len(adds) &&
+//@        circuit == adds[rangeindex + 1] && ret(Batch) != nil
 //@   site store CircuitFwdActions.Adds: assert ret(Batch) == nil && value == adds
 //@   ensures result1 == nil && len(result0.Adds) > 0 ==> ret(Batch) == nil
 //@   ensures result0 != nil
@@ -414,3 +419,18 @@ package htlcswitch
 //@   loop * havoc
 //@   site call UpdateForwardingPolicy: assert arg(1) == policy && arg(0) == link
 //@   single-exit
+//@
+//@ // ---- an outgoing add handed to the link: it is bounced back to the incoming link (FailAdd) only while it has NOT entered the channel's
+//@ // ---- update log; once AddHTLC accepted it the HTLC will be signed and retransmitted, so the function keeps the keystone, reports
+//@ // ---- success and never fails the incoming HTLC - whatever happens to the message on the wire
+//@ func (l *channelLink) handleDownstreamUpdateAdd
+//@   props C08
+//@   loop * havoc
+//@   site call FailAdd: assert arg(1) == pkt && (!called(AddHTLC) || retn(AddHTLC, 1) != nil)
+//@   site call AddHTLC: assert arg(1) == dynptr(pkt.htlc, *lnwire.UpdateAddHTLC)
+//@   site store htlcPacket.outgoingHTLCID: assert value == retn(AddHTLC, 0) && retn(AddHTLC, 1) == nil
+//@   site store UpdateAddHTLC.ID: assert value == retn(AddHTLC, 0) && retn(AddHTLC, 1) == nil
+//@   site call SendMessage: assert called(AddHTLC) && retn(AddHTLC, 1) == nil
+//@   ensures called(AddHTLC) && retn(AddHTLC, 1) == nil ==> result == nil && called(SendMessage) && called(tryBatchUpdateCommitTx)
+//@   site call tryBatchUpdateCommitTx: assert len(l.keystoneBatch) == old(len(l.keystoneBatch)) + 1 &&
+//@        len(l.openedCircuits) == old(len(l.openedCircuits)) + 1 && called(SendMessage)
